@@ -312,7 +312,32 @@ def _reads_member_directly(text: str, op: str) -> bool:
     return False
 
 
+def r19_10(ctx) -> None:
+    """R19.10  "ValueError for any character outside the alphabet other than trailing =": the octet-string members of a JWK (oct k, OKP x / d) reach
+    the strict decoder exactly as they were given - `urlsafe_b64decode(to_bytes(obj[member]))`, nothing stripped, replaced or re-encoded in between
+    (a `.strip(b"=")` also removes LEADING padding characters, `.replace` / `.translate` admit a second alphabet)."""
+    from .common import resolve_all
+    eng = ctx.eng
+    dec = eng.prog.func("util:urlsafe_b64decode")
+    n = 0
+    for fn in eng.prog.all_functions():
+        if fn.cls is None or not fn.name.startswith("import_") or not fn.module.short.startswith(("rfc7518.oct_key", "rfc8037.okp_key", "rfc7518.ec_key", "rfc7518.rsa_key")):
+            continue
+        op = fn.pos_params[-1] if fn.pos_params else None
+        for s_ in eng.cg.calls_in(fn):
+            if not (isinstance(s_.node, ast.Call) and dec in s_.callees and s_.node.args):
+                continue
+            n += 1
+            texts = resolve_all(eng, fn, s_.node.args[0])
+            import re as _re
+            ok = bool(texts) and all(_re.fullmatch(r"to_bytes\(" + _re.escape(op or "") + r"\['[A-Za-z0-9_]+'\](, '(ascii|utf-8)')?\)", t_) for t_ in texts)
+            ctx.check(ok, "R19.10", fn, s_.node, f"{fn.short} :: {norm(s_.node)[:50]}", f"the JWK member is not handed to the strict base64url decoder as it was given: {texts}",
+                      f"urlsafe_b64decode(to_bytes({op}[member]))", construct=f"decoder input in {fn.short}")
+    ctx.count("R19.10", n, 3, "octet-string JWK members decoded on import")
+
+
 def run(ctx) -> None:
+    ctx.guard(r19_10)
     from .common import octet_length_lint as _oll
     ctx.guard(_oll, "R19.9")  # integers round-trip exactly: bit sizes become octets by (bits + 7) // 8
     ctx.guard(r19_8)
